@@ -632,16 +632,14 @@ class Array(metaclass=MetaArray):
             self.__class__._to_buffer(self._buffer, self._offset, value)
         elif fits:
             # every item keeps the space it got at creation: update in place
-            info = self.__class__._inspect_args(value)
-            for idx in self._iter_index():
-                room = Int64._from_buffer(self._buffer, self._get_offset(idx))
-                if info.extra[idx].size > room:
-                    raise ValueError(
-                        f"item {idx} of {value} does not fit in the {room} "
-                        "bytes reserved when the array was created"
-                    )
-            for idx in self._iter_index():
-                self[idx] = get_item(value, idx)
+            # and leave the array untouched if one of the items is refused
+            backup = self._buffer.to_bytearray(self._offset, self._get_size())
+            try:
+                for idx in self._iter_index():
+                    self[idx] = get_item(value, idx)
+            except Exception:
+                self._buffer.update_from_buffer(self._offset, backup)
+                raise
         else:
             if is_integer(value):
                 raise ValueError(f"Cannot specify new length {ll} for {self}")
